@@ -616,8 +616,14 @@ NS_URIS = [
 ]
 
 
+TRACE_MODULES = {"C13": "TraceNamespace", "C05": "TraceLin", "C19": "TraceLin", "C11": "TraceRaffle"}
+
+
 def trace_violation(v, label, trace_file, line, what):
     path = os.path.join(v.wd, "replay-%s-trace.json" % label)
+    keep = os.path.join(v.wd, "replay-%s-trace.ndjson" % label)
+    verif.shutil.copyfile(trace_file, keep)     # the recorded trace itself: bin/replay validates it again
+    trace_file = keep
     ctx = []
     with open(trace_file) as fh:
         for i, l in enumerate(fh, 1):
@@ -625,7 +631,7 @@ def trace_violation(v, label, trace_file, line, what):
                 ctx.append(l.strip())
     with open(path, "w") as fh:
         json.dump({"property": v.prop, "stage": label, "trace_file": trace_file, "rejected_line": line,
-                   "context": ctx, "what": what}, fh, indent=1)
+                   "module": TRACE_MODULES.get(v.prop), "context": ctx, "what": what}, fh, indent=1)
     v.violations.append(("%s: %s; line %d: %s" % (label, what, line, ctx[-1] if ctx else ""), path))
 
 
@@ -1039,24 +1045,29 @@ def check_C15(tier, seed):
     with open(os.path.join(sd, name + ".tla"), "w") as fh:
         fh.write("---- MODULE %s ----\nEXTENDS Parser\n====\n" % name)
     with open(os.path.join(sd, name + ".cfg"), "w") as fh:
-        fh.write("SPECIFICATION Spec\nINVARIANT OneBadSlotInvalidates\nCONSTRAINT EmitDoc\nCHECK_DEADLOCK FALSE\n")
+        fh.write("SPECIFICATION Spec\nCONSTANT Deep = %s\nINVARIANT OneBadSlotInvalidates\nCONSTRAINT EmitDoc\nCHECK_DEADLOCK FALSE\n"
+                 % ("TRUE" if tier == "thorough" else "FALSE"))
     out = os.path.join(v.wd, name + ".out")
     st = verif.run_tlc(sd, name, out, workers=4)
     v.add_tlc(st)
-    tot, results = verif.replay(binary, v.wd, out, label=name, test="TestParser")
+    tot, results = verif.replay(binary, v.wd, out, label=name, test="TestParser",
+                                extra_env={"VERIF_ALL_CUTS": "1" if tier == "thorough" else "0",
+                                           "VERIF_MUTATE": "1" if tier == "thorough" else "0"})
 
     def classify(r, d):
         return None
     v.add_replay(tot, results, classify=classify, label=name)
     os.remove(out)
     v.assumptions = ["documents are built from slot shapes (valid forms and single-slot type mutations) plus element-level and "
-                     "byte-level truncations; arbitrary byte strings beyond that are not generated",
+                     "byte-level truncations; thorough tier: single-byte grammar mutations (delete / replace / insert JSON punctuation at "
+                     "every position) checked for 'no panic' only; arbitrary byte strings beyond that are not generated",
                      "all documents are smaller than the handler's flush batch (10), so 'nothing stored' is exact",
                      "encoding/json's tokenizer is trusted"]
     return v.finish(rule="documents = every initial state TLC enumerates from spec/Parser.tla (context shape x entity slot "
                     "shapes x truncation); each is rendered to bytes and (1) parsed by the real EntityStreamParser under "
                     "recover, (2) POSTed through the real handler into a fresh dataset, (3) read back through GET entities / "
-                    "changes and re-parsed, (4) cut at ~40 byte positions. evaluations = compared answers; "
+                    "changes and re-parsed, (4) cut at ~40 byte positions (thorough: every byte position; two-slot variants, "
+                    "three-element documents). evaluations = compared answers; "
                     "distinct_nontrivial = distinct documents")
 
 
